@@ -11,14 +11,15 @@ CONSTANTS
   AllowSat = TRUE
   BumpDen = 2
   InitClkEpochs = {0, 1}
-  MaxLen = 4
-  RawMags <- RawMagsOne
+  MaxLen = 6
+  RawMags <- RawMagsFull
   StepUsesDoubleInv = FALSE
   DurationWraps = FALSE
-  Jumps <- JumpsSmall
+  Jumps <- JumpsFull
   StepAt = {1, 2, 3}
-  MaxInDo = 0
+  MaxInDo = 2
   ReadsNowFirst = FALSE
   StepDen = 4
-VIEW ViewGen
-INVARIANTS Emit
+VIEW ViewCore
+INVARIANTS TypeOK
+PROPERTIES C19Step LemmaStep
